@@ -156,6 +156,7 @@ def gen(rng, m, l=32, n_steps=(3, 9), ops=CHEAP, features=True, n_inputs=(2, 4))
         spec['await_twice'] = rng.random() < 0.4
         spec['early_await'] = rng.choice([None, None, rng.randrange(n_nodes)])
         spec['sleepy'] = rng.choice([None, None, rng.randrange(m)])
+        spec['yield_at'] = {str(rng.randrange(max(1, len(steps)))): rng.randint(1, 4) for _ in range(rng.choice([0, 1, 1, 2]))}
     return spec
 
 
@@ -258,6 +259,8 @@ def build(spec, on_node=None, do_shutdown_sync=False):
                 await mpc.barrier()
             if spec.get('sleepy') == pid and k == 1:
                 await asyncio.sleep(0)
+            for _ in range((spec.get('yield_at') or {}).get(str(k), 0)):
+                await asyncio.sleep(0)           # every party yields to its event loop here (symmetric)
             xs = [nodes[i] for i in args]
             if any(i in pub for i in args):
                 # operands that are public futures: await and re-enter as public ints (legal program style)
